@@ -3,7 +3,7 @@
    lazy_analysis.py, tied to /repo by the correspondence check) and Spec.v (defining sums). *)
 From Coq Require Import List Bool Arith ZArith QArith Qcanon.
 From AL Require Import Base.CaseLib C10.Model C10.Spec C10.Proofs_Sum C10.Proofs_Tab C10.Proofs_Lev
-  C10.Proofs_Kac C10.Proofs_Kcv C10.Check C10.Proofs_Check C10.TabLib C10.Gen_Tables C10.Proofs_Gen C10.Proofs_Complete.
+  C10.Proofs_Kac C10.Proofs_Kcv C10.Check C10.Proofs_Check C10.TabLib C10.Gen_Tables C10.Proofs_Gen C10.Proofs_Complete C10.Proofs_Scale.
 Import ListNotations.
 Open Scope Qc_scope.
 
@@ -283,3 +283,24 @@ Print Assumptions C10_hist_calls_independent.
 Theorem C10_corr_hist_implies_holds : forall c, corr_hist c = true -> holds_hist c = true.
 Proof. exact corr_hist_holds. Qed.
 Print Assumptions C10_corr_hist_implies_holds.
+
+(* ------------------------------------------------------------------ the property is scale free *)
+(* rescale d (Ok (a, e)) = Ok (a, d * e), rescale d (Err x) = Err x.  For every c <> 0 (as small or large as one likes,
+   negative included for the lags): multiplying the lags by c keeps the coefficients AND the outcome (filter or
+   ParCorError) of levinson_durbin and multiplies the stored error by c; multiplying the block by c does the same
+   for lpc.kautocor and lpc.kcovar (all their exceptions included) with the factor c * c.  In particular no
+   absolute threshold on an energy can be part of a correct implementation. *)
+Theorem C10_levinson_scale_free : forall c r order, c <> 0 ->
+  levinson_durbin (scale c r) order = rescale c (levinson_durbin r order).
+Proof. exact levinson_scale. Qed.
+Print Assumptions C10_levinson_scale_free.
+
+Theorem C10_kautocor_scale_free : forall c x order, c <> 0 ->
+  kautocor (scale c x) order = rescale (c * c) (kautocor x order).
+Proof. exact kautocor_scale. Qed.
+Print Assumptions C10_kautocor_scale_free.
+
+Theorem C10_kcovar_scale_free : forall c x order, c <> 0 ->
+  kcovar (scale c x) order = rescale (c * c) (kcovar x order).
+Proof. exact kcovar_scale. Qed.
+Print Assumptions C10_kcovar_scale_free.
